@@ -14,7 +14,7 @@
    Exact specification arithmetic: [period_start] / [period_end] = first slot of the fork-clamped
    period of [epoch] / first slot after it; [spec_first] = max(period_start - 1, now) with the
    subtraction saturating at slot 0; [spec_last] = period_end - 2 (the slot before the last). *)
-From Verif Require Import Lib.Base Model.C15_Sync Check.C15 Proofs.C15 Proofs.C15_Fire Proofs.C15_Check.
+From Verif Require Import Lib.Base Model.C15_Sync Check.C15 Proofs.C15 Proofs.C15_Fire Proofs.C15_Check Proofs.C15_Pass.
 
 (* ------------------------------------------------------------------------------------------- *)
 (* C15_window.  For every chain (slots per epoch, epochs per period, fork epoch), every epoch
@@ -162,6 +162,34 @@ Theorem C15_independence_converse :
 Proof. exact independence_messages_back. Qed.
 Print Assumptions C15_independence_converse.
 
+(* As an equation: when the selection signer does not fail as a whole, the sub-list of the other
+   members' messages (same messages, same order, same multiplicity) is identical in both runs. *)
+Theorem C15_independence_exact :
+  forall p mem bad acct acct' f f',
+    fewer_accounts bad acct acct' -> same_for_others bad f f' -> f_sel_err f = false ->
+    filter (others bad) (opt_list (o_submitted (fire p mem acct f)))
+    = filter (others bad) (opt_list (o_submitted (fire p mem acct' f'))).
+Proof. exact independence_exact. Qed.
+Print Assumptions C15_independence_exact.
+
+(* The same on the inputs of scheduleSyncCommitteeMessages: the account manager holding fewer
+   accounts (any subset [bad] of the validators removed) changes neither the job table nor the
+   messages of the other validators, in any slot and any environment. *)
+Theorem C15_independence_accounts :
+  forall p i a a' (bad : N -> bool) f m,
+    si_accts i = Some a ->
+    (forall v, (bad v = false -> (In v a' <-> In v a)) /\ (In v a' -> In v a)) ->
+    bad (msg_validator m) = false ->
+    In m (opt_list (o_submitted (fire_scheduled p i f))) ->
+    so_jobs (schedule p (with_accts i a')) = so_jobs (schedule p i)
+    /\ In m (opt_list (o_submitted (fire_scheduled p (with_accts i a') f))).
+Proof.
+  intros p i a a' bad f m Ha Hs Hb Hin. split.
+  - exact (schedule_jobs_with_accts p i a a' Ha).
+  - exact (independence_accounts p i a a' bad f m Ha Hs Hb Hin).
+Qed.
+Print Assumptions C15_independence_accounts.
+
 (* Contributions.  Full statement: "every contribution of an aggregator outside [bad] submitted in
    A is submitted in B".  Proved under two provisos that the code makes necessary: some message
    outside [bad] goes out (Message reports an error when it has nothing to submit and the
@@ -273,6 +301,20 @@ Theorem C15_check_predicate_sound :
              /\ (f_sel_err f = false -> o_msg_job o = Some (message_time p (f_slot f)))).
 Proof. exact P_b_sound. Qed.
 Print Assumptions C15_check_predicate_sound.
+
+(* Conversely the predicate is never stronger than what the model does: on every input in range, a
+   case on which the implementation agrees with the model (Check.C15.agree) passes P_b.  So on a
+   tree that still is the model the predicate cannot raise an alarm, and a tree that fails P_b on
+   some input necessarily disagrees with the model there.  (A direct Aggregate call must list each
+   (aggregator, subcommittee) once: SelectionProofs is a map per validator.) *)
+Theorem C15_agreement_implies_check :
+  forall c,
+    chain_ok (c_par c) -> in_range (c_par c) (si_epoch (c_in c)) (si_cur (c_in c)) ->
+    (0 <= slot_ns (c_par c))%Z ->
+    (forall a o, c_agg c = Some (a, o) -> NoDup (agg_items a)) ->
+    agree c = true -> P_b c = true.
+Proof. exact model_passes_check. Qed.
+Print Assumptions C15_agreement_implies_check.
 
 (* ------------------------------------------------------------------------------------------- *)
 (* Non-vacuity. *)
